@@ -398,8 +398,7 @@ def rule_order(ctx):
     # topological sort structure
     f = sd.methods['_topological_sort']
     src = full(f.node)
-    ok = src.index('self._init_topo_sort()') < src.index('self._available.pop()') < src.index('self._children = out_stack') \
-        if all(x in src for x in ('self._init_topo_sort()', 'self._available.pop()', 'self._children = out_stack')) else False
+    ok = U.before(src, 'self._init_topo_sort()', 'self._available.pop()', 'self._children = out_stack')
     ctx.ob('C02.order', f'{sd.module.name}:SynthDef._topological_sort:structure', ok and 'ugen._arrange(out_stack)' in src,
            'sort must initialise edges, drain _available through _arrange and install the resulting order', f.node, sd.module)
     ar = so.methods['_arrange']
@@ -409,8 +408,7 @@ def rule_order(ctx):
            'a unit is emitted and releases its descendants (each descendant loses this antecedent)', ar.node, so.module)
     ra = so.methods['_remove_antecedent']
     src = full(ra.node)
-    ctx.ob('C02.order', f'{so.module.name}:SynthObject._remove_antecedent', 'self._antecedents.remove(ugen)' in src and
-           src.index('self._antecedents.remove(ugen)') < src.index('self._make_available()'),
+    ctx.ob('C02.order', f'{so.module.name}:SynthObject._remove_antecedent', U.before(src, 'self._antecedents.remove(ugen)', 'self._make_available()'),
            'a descendant becomes available only after the antecedent was removed', ra.node, so.module)
     ma = so.methods['_make_available']
     b = U.body_nodoc(ma.node)
